@@ -157,8 +157,9 @@ type chanV struct {
 	taken   int // number of values ever dequeued
 	waiters int // goroutines currently blocked receiving
 	id      int
-	mayFire bool   // timer / deadline channel: may become ready at any moment
-	onFire  func() // what firing does (push an instant / cancel the context)
+	mayFire bool     // timer / deadline channel: may become ready at any moment
+	due     *big.Int // virtual instant at which it is due (nil: unknown duration, may fire at any idle moment)
+	onFire  func()   // what firing does (push an instant / cancel the context)
 	af      *afterFunc
 }
 
